@@ -326,8 +326,9 @@ def _r3_r9(ctx):
             sw_unix = [bb for bb, tm in b.terms() if tm["k"] == "switch" and discr_of_field(bb, tm, "unix")]
             tests = tuple(bb for x in [b] for bb, tm in x.calls() if (callee_name(tm) or "").rsplit("::", 1)[-1] in ("check_subnet", "contains", "any"))
             if sw_sub and sw_unix and none_ret and some_ret:
-                absent_ok = all(not (none_ret & cfg.reachable_from(tgt, blocked=tuple(sw_unix))) for sb in sw_sub for _, tgt in discr_edges(cfg, sb, 0))
-                only_absent = bool(tests) and all(not (some_ret & cfg.reachable_from(tgt, blocked=tests)) for sb in sw_sub for _, tgt in discr_edges(cfg, sb, 1))
+                # (paths are followed with the values of the boolean locals they set: `let subnet_ok = ..; let unix_ok = ..; a && b`)
+                absent_ok = all(not (none_ret & cfg.reachable_from_flags(tgt, blocked=tuple(sw_unix))) for sb in sw_sub for _, tgt in discr_edges(cfg, sb, 0))
+                only_absent = bool(tests) and all(not (some_ret & cfg.reachable_from_flags(tgt, blocked=tests)) for sb in sw_sub for _, tgt in discr_edges(cfg, sb, 1))
                 match_form = (absent_ok, only_absent)
         if match_form is not None:
             ctx.check(match_form[0], "R9", "absent-subnet-condition-matches", ctx.where(b),
